@@ -4,6 +4,7 @@ From K Require Import Lib.Types Model.Machine Model.Alu Model.Exec Spec.ISA Proo
 From K Require Import Model.Bus Model.Cost Model.Addressing Proofs.RegProofs Proofs.StepProofs.
 From K Require Import Model.Cost Model.Addressing Model.Exec Proofs.MemProofs Proofs.StepProofs Proofs.CtlProofs Proofs.StepRefines.
 From K Require Import Proofs.BitMemProofs.
+From K Require Import Proofs.StepRefinesBit.
 Open Scope Z_scope.
 
 (* all 14 operations x 256 operand values x 8 bit numbers x 256 CCR values: the shift/mask code of the
@@ -84,6 +85,18 @@ Theorem bit_memory_reference :
       (bit_mem_ref o (ea_addr SB s e) (match b with BImm k => k | BReg rn => reg8 s rn mod 8 end) s).
 Proof. exact bit_mem_ref_sem. Qed.
 
+(* BSET BNOT BCLR BTST BST BIST BLD BILD BAND BIAND BOR BIOR BXOR BIXOR on @ERd (prefix 7Cr0 / 7Dr0), immediate or register
+   bit number: both instruction words in memory, any state *)
+Theorem step_bit_memory_register_indirect :
+  forall s w0 w1 w2 w3 w4 o b r n s',
+    cpu_ok s -> bus_bytes_ok s -> fault s = false -> pc s mod 2 = 0 -> 0 <= pc s -> pc s + 4 < 4294967296 ->
+    mem_read SW s (pc s) = Some w0 -> mem_read SW s (pc s + 2) = Some w1 ->
+    decode_ref w0 w1 w2 w3 w4 = Some (IBit o b (BTMem (EInd r)), 4) ->
+    sem_ref (IBit o b (BTMem (EInd r))) 4 s = Some s' ->
+    bit_charge o (ea_addr SB s (EInd r)) (set_opc (pc s + 2) s') = Ok n (set_opc (pc s + 2) s') ->
+    step s = Ok n (set_opc (pc s + 2) s').
+Proof. exact step_bit_ern_proof. Qed.
+
 Print Assumptions bit_kernel.
 Print Assumptions exactly_the_addressed_bit.
 Print Assumptions only_the_named_flag.
@@ -92,3 +105,4 @@ Print Assumptions step_bit_register.
 Print Assumptions bit_memory_register_indirect.
 Print Assumptions bit_memory_absolute8.
 Print Assumptions bit_memory_reference.
+Print Assumptions step_bit_memory_register_indirect.
